@@ -124,6 +124,15 @@ func c20Run(input string) string {
 			vcS := map[string]interface{}{"uri": "https://www.w3.org/2018/credentials#VerifiableCredential"}
 			deg := map[string]interface{}{"uri": "https://example.org/examples#UniversityDegreeCredential"}
 			switch f[5] {
+			case "f1": // format requirements on the descriptor (a version 2 feature): JWT credentials signed with EdDSA
+				v2 = true
+				desc["format"] = map[string]interface{}{"jwt_vc": map[string]interface{}{"alg": []string{"EdDSA"}}}
+			case "f2": // credentials with an Ed25519Signature2018 linked data proof
+				v2 = true
+				desc["format"] = map[string]interface{}{"ldp_vc": map[string]interface{}{"proof_type": []string{"Ed25519Signature2018"}}}
+			case "f3": // JWT credentials signed with ES256 (the harness has none)
+				v2 = true
+				desc["format"] = map[string]interface{}{"jwt_vc": map[string]interface{}{"alg": []string{"ES256"}}}
 			case "s1":
 				deg["required"] = true
 				desc["schema"] = []interface{}{vcS, deg}
@@ -218,7 +227,7 @@ func c20Run(input string) string {
 				ctxs = append(ctxs, "https://www.w3.org/2018/credentials/examples/v1")
 				types = append(types, "UniversityDegreeCredential")
 			}
-			creds = append(creds, &verifiable.Credential{
+			cred := &verifiable.Credential{
 				Context:      ctxs,
 				Types:        types,
 				ID:           "urn:cred:" + f[0],
@@ -226,13 +235,41 @@ func c20Run(input string) string {
 				Issuer:       verifiable.Issuer{ID: "did:example:issuer"},
 				Issued:       utiltime.NewTime(time.Date(2020, 1, 1, 0, 0, 0, 0, time.UTC)),
 				CustomFields: custom,
-			})
+			}
+			switch {
+			case strings.HasPrefix(f[0], "j"):
+				// the credential in its JWT form (EdDSA)
+				if c07E == nil {
+					c07Setup()
+				}
+				claims, err := cred.JWTClaims(false)
+				if err != nil {
+					return "bad-cred jwt claims"
+				}
+				tok, err := claims.MarshalJWS(verifiable.EdDSA, c07JWTSigner{c07E.handles["ed"]}, "did:example:issuer#key-1")
+				if err != nil {
+					return "bad-cred jws"
+				}
+				cred, err = verifiable.ParseCredential([]byte(tok), verifiable.WithDisabledProofCheck(), verifiable.WithJSONLDDocumentLoader(c20Loader),
+					verifiable.WithCredDisableValidation())
+				if err != nil {
+					return "bad-cred parse jwt"
+				}
+			case strings.HasPrefix(f[0], "l"):
+				// a linked data proof (its value is never looked at here: proof checks are off on both sides)
+				cred.Proofs = []verifiable.Proof{{"type": "Ed25519Signature2018", "created": "2020-01-02T00:00:00Z",
+					"verificationMethod": "did:example:issuer#key-1", "proofPurpose": "assertionMethod", "proofValue": "c2lnbmF0dXJl"}}
+			}
+			creds = append(creds, cred)
 		}
 	}
 	vp, err := pd.CreateVP(creds, c20Loader, verifiable.WithJSONLDDocumentLoader(c20Loader))
 	if err != nil {
 		if errors.Is(err, presexch.ErrNoCredentials) {
 			return "nocreds|-"
+		}
+		if os.Getenv("VERIF_TRACE") != "" {
+			fmt.Fprintln(os.Stderr, "createvp error:", err)
 		}
 		return "err " + strings.SplitN(err.Error(), ":", 2)[0] + "|-"
 	}
@@ -256,7 +293,14 @@ func c20Run(input string) string {
 			cid := "?"
 			shown := "?"
 			if idx >= 0 && idx < len(vp.Credentials()) {
-				if vc, ok := vp.Credentials()[idx].(*verifiable.Credential); ok {
+				vc, ok := vp.Credentials()[idx].(*verifiable.Credential)
+				if tok, isJWT := vp.Credentials()[idx].(string); isJWT {
+					if pv, err := verifiable.ParseCredential([]byte(tok), verifiable.WithDisabledProofCheck(),
+						verifiable.WithJSONLDDocumentLoader(c20Loader), verifiable.WithCredDisableValidation()); err == nil {
+						vc, ok = pv, true
+					}
+				}
+				if ok {
 					cid = strings.TrimPrefix(vc.ID, "urn:cred:")
 					// tmp ids of rewritten (predicate / limited) credentials keep the original id as prefix or not at all
 					if i := strings.Index(vc.ID, "urn:cred:"); i < 0 {
@@ -414,6 +458,7 @@ func c20Gen(r *Rng, tier string) []string {
 		var ds []string
 		optDef := r.N(6) == 0 // a version 2 definition with optional fields
 		schemaDef := !optDef && r.N(5) == 0 // schema lists with a required entry behind / in front of a non-required one
+		formatDef := !optDef && !schemaDef && r.N(5) == 0 // format requirements over a mixed list of JWT / LDP / plain credentials
 		for d := 0; d < nd; d++ {
 			groups := ""
 			for _, g := range []string{"A", "B", "C"} {
@@ -438,6 +483,9 @@ func c20Gen(r *Rng, tier string) []string {
 			dsc := fmt.Sprintf("d%d/%s/%s/%s/%s", d, groups, kind, attrs[r.N(len(attrs))], val)
 			if schemaDef && r.N(2) == 0 {
 				dsc += "/" + r.Pick([]string{"s1", "s1", "s2", "s3"})
+			}
+			if formatDef && r.N(2) == 0 {
+				dsc += "/" + r.Pick([]string{"f1", "f1", "f2", "f2", "f3"})
 			}
 			ds = append(ds, dsc)
 		}
@@ -468,6 +516,9 @@ func c20Gen(r *Rng, tier string) []string {
 			pre := "c"
 			if schemaDef && r.N(2) == 0 {
 				pre = "g"
+			}
+			if formatDef {
+				pre = r.Pick([]string{"j", "j", "l", "l", "c"})
 			}
 			cs = append(cs, fmt.Sprintf("%s%d/%s", pre, c, strings.Join(kv, ",")))
 		}
